@@ -32,7 +32,7 @@ impl TokenSerializationType {
     { unimplemented!() }
 }
 /// cssparser::Token: opaque except for the WhiteSpace variant this crate matches on
-pub enum Token<'i> { WhiteSpace(&'i str), Other(&'i str) }
+pub enum Token<'i> { WhiteSpace(&'i str), Comment(&'i str), Other(&'i str) }
 pub uninterp spec fn css_text(t: Token) -> Seq<char>;
 pub uninterp spec fn ser_type(t: Token) -> TokenSerializationType;
 impl<'i> Token<'i> {
